@@ -64,6 +64,7 @@ def one_object(draw, kind, vs=None, bare=False):
         c['signals'] = {v: draw(grid_signal(0, max_samples=5)) for v in vs}
         c['cuts'] = draw(st.integers(0, 3))
         c['overlap'] = draw(st.booleans())
+        c['close_inf'] = kind == 'ct_off' and draw(st.integers(0, 3)) == 0
     return c
 
 
@@ -88,6 +89,10 @@ def calls_of(c):
         return [('update', [i, [[v, float(c['trace'][v][i])] for v in used]]) for i in range(n)]
     sig = to_time({v: [(int(k), float(x)) for k, x in c['signals'][v]] for v in used}, Q)
     if kind == 'ct_off':
+        if c.get('close_inf'):
+            # the caller closes every signal with a sample at time +inf that repeats the last value (the library writes its
+            # own constants like this: [[0, c], [inf, c]])
+            sig = {v: [list(p) for p in sig[v]] + [[float('inf'), sig[v][-1][1]]] for v in used}
         return [('evaluate', [[v, sig[v]] for v in used])]
     # ct_on: split every signal at the same instants into 1 + cuts batches
     ts = sorted(set(t for v in used for t, _ in sig[v]))
